@@ -1,9 +1,12 @@
-(** C10 — property theorems only; each closed by [exact] of a lemma proved in Store/SaveLoadTheorems.v.
+(** C10 — property theorems only; each closed by [exact] of a lemma proved in Store/*Theorems.v / *Proofs.v.
     Model: Store/SaveLoadDefs.v (BlockIndex/addon mutators with exactly the setDirty() calls of the code,
     saveTree, loadTree). [run prims_fixed h init storage0] executes ANY history [h] of tree operations in which
     [OSave] may occur at ANY positions. *)
 From Coq Require Import NArith List.
 From VB Require Import Store.SaveLoadDefs Store.SaveLoadProofs Store.SaveLoadTheorems Store.LoadProofs Store.LoadSort Store.LoadWindow.
+From VB Require Import Store.ChainWorkDefs Store.ChainWorkProofs.
+From VB Require Import Store.FinalizeDefs Store.FinalizeOutdated Store.FinalizeWindow Store.FinalizeTips
+  Store.FinalizeVariantDefs Store.FinalizeDirtyProofs.
 Import ListNotations.
 Local Open Scope N_scope.
 
@@ -87,3 +90,51 @@ Theorem C10_recovery_window_short_refuted :
   recover_check (window_start_short 6) boundary_store boundary_block = false.
 Proof. exact recovery_window_short_refuted. Qed.
 Print Assumptions C10_recovery_window_short_refuted.
+
+(* chain work (memory only, compared by PoW fork resolution) is rebuilt by load to exactly the value the running
+   instance holds, for EVERY block of every structurally consistent stored tree - whatever the bootstrap flags
+   (bootstrapWithChain marks a whole chain) and whatever order the running instance inserted the blocks in.
+   [proof] = getBlockProof(header), any function of the block *)
+Theorem C10_chainwork_restored :
+  forall (proof : N -> N) stored,
+  consistent_list stored -> pbc [] stored ->
+  forall id, work_of (load_work proof stored) id = work_of (live_work proof stored) id.
+Proof. exact chainwork_restored. Qed.
+Print Assumptions C10_chainwork_restored.
+
+(* the variant of loadBlockForward that does not add the parent's work for BLOCK_BOOTSTRAP blocks: with the 2-block
+   bootstrap chain g - b1 and a regular block b2 the reloaded work of b1 and b2 is too small *)
+Theorem C10_chainwork_restart_at_bootstrap_refuted :
+  work_of (live_work (fun _ => 1) boot2_chain) 1 = 2 /\ work_of (load_work_restart (fun _ => 1) boot2_chain) 1 = 1 /\
+  work_of (live_work (fun _ => 1) boot2_chain) 2 = 3 /\ work_of (load_work_restart (fun _ => 1) boot2_chain) 2 = 2.
+Proof. exact chainwork_restart_at_bootstrap_refuted. Qed.
+Print Assumptions C10_chainwork_restart_at_bootstrap_refuted.
+
+(* finalization never deallocates an unsaved block of the active chain: for ANY set of dirty blocks (also an old
+   saved block that became dirty again below clean blocks) every dirty active-chain block is still in the tree, still
+   dirty, with its payload ids, after finalizeBlockImpl - so the next saveTree can write it.  Premises: well-formed
+   tree, the active chain is a parent-closed path starting at the root, no unsaved block on an outdated fork
+   (known finding tips-dirty-fork-erased is about those) *)
+Theorem C10_finalize_keeps_dirty_chain_blocks :
+  forall fuel t idx preserve,
+  wf_tree t -> chain_is_path t -> chain_closed t ->
+  (forall id b, flookup (t_blocks t) id = Some b -> (N.to_nat (f_height b) <= fuel)%nat) ->
+  In idx (t_chain t) -> flookup (t_blocks t) idx <> None ->
+  no_dirty_outdated_forks fuel t (lowest_dirty fuel t idx idx) (t_tips t) ->
+  forall c b, In c (t_chain t) -> flookup (t_blocks t) c = Some b -> f_dirty b = true ->
+  exists b', flookup (t_blocks (finalizeBlockImpl fuel t idx preserve)) c = Some b' /\
+             f_dirty b' = true /\ f_pl b' = f_pl b /\ f_height b' = f_height b.
+Proof. exact finalize_keeps_dirty_chain_blocks. Qed.
+Print Assumptions C10_finalize_keeps_dirty_chain_blocks.
+
+(* the walk that stops at the first clean block ("unsaved blocks are the top of the chain"): chain 0..12, only the
+   old block 2 is dirty; finalizing block 8 with preserve 2 moves the root to 6 and deallocates block 2 with its
+   unsaved change, the full walk keeps it *)
+Theorem C10_finalize_stop_at_first_clean_refuted :
+  is_dirty late_dirty_tree 2 = true /\ on_chain late_dirty_tree 2 = true /\
+  lowest_dirty_stop 30 late_dirty_tree 8 8 = 8 /\
+  flookup (t_blocks (finalizeBlockImpl_stop 30 late_dirty_tree 8 2)) 2 = None /\
+  t_chain (finalizeBlockImpl_stop 30 late_dirty_tree 8 2) = [6;7;8;9;10;11;12] /\
+  flookup (t_blocks (finalizeBlockImpl 30 late_dirty_tree 8 2)) 2 <> None.
+Proof. exact finalize_stop_at_first_clean_refuted. Qed.
+Print Assumptions C10_finalize_stop_at_first_clean_refuted.
